@@ -9,7 +9,7 @@ package baseorbitdb
 // ---- C12 / C09: heads received over the direct channel ----
 // The store that receives the heads is the one registered under the message's address.
 //@ func (*orbitDB).handleEventExchangeHeads
-//@   props C12 C09
+//@   props C12 C09 C04
 //@   flag nilcalls
 //@   requires e != nil && wfo(o)
 //@   requires store != nil && (e.Address in o.stores) && o.stores[e.Address] == store
